@@ -208,6 +208,12 @@ pub fn drive(d: &mut Driver)
 	}
 	d.bound("function bodies (statements): label bodies, variable bodies, placement trees", json!([n4, n5, n6]));
 	d.phase("function bodies of the statement-level spaces", jobs);
+	// (g) every type term in every declaration position and every referent of a named length
+	// (C11's legality space), in every declaration order it uses
+	let ncells = crate::checks::c11::legality_cells().len();
+	d.bound("type terms x declaration positions (C11's legality space)", json!(ncells));
+	let jobs: Vec<Value> = (0..ncells).step_by(24).map(|lo| json!({"space": "legality", "lo": lo, "hi": (lo + 24).min(ncells)})).collect();
+	d.phase("type terms in every declaration position", jobs);
 	d.assume("termination is bounded by a 20 s per-case watchdog; the nesting bound of the property (256) is applied on a release-profile worker with the 8 MiB main-thread stack of the real binary");
 	d.assume("inputs beyond the bounds (the property's 64 KiB texts, random token soup) are not explored");
 }
@@ -468,6 +474,18 @@ pub fn work(spec: &Value, w: &mut WorkerCtx)
 					let text = crate::checks::c11::graph_program(&kinds, &edges, p);
 					w.result.transitions += 1;
 					judge(&[("m.pn".to_string(), text.clone())], || json!({"text": text, "sig_hint": "dependency graph"}), w);
+				}
+			}
+		}
+		"legality" =>
+		{
+			let cells = crate::checks::c11::legality_cells();
+			for i in spec["lo"].as_u64().unwrap() as usize..spec["hi"].as_u64().unwrap() as usize
+			{
+				for text in &cells[i].1
+				{
+					w.result.transitions += 1;
+					judge(&[("m.pn".to_string(), text.clone())], || json!({"text": text, "sig_hint": "type term in a declaration position"}), w);
 				}
 			}
 		}
